@@ -35,7 +35,9 @@ def alter(c, alt):
     """Apply one alteration; returns new code object or None when CPython refuses to build it."""
     kw = {}
     kind = alt[0]
-    if kind in ("flag-bit", "flag-mask"):
+    if kind == "flag-sign":
+        kw["co_flags"] = c.co_flags - (1 << 31) if c.co_flags >= 0 else c.co_flags + (1 << 31)
+    elif kind in ("flag-bit", "flag-mask"):
         kw["co_flags"] = c.co_flags ^ alt[1]
     elif kind == "count":
         field, delta = alt[1], alt[2]
@@ -66,6 +68,8 @@ def alter(c, alt):
 
 def alt_class(alt, known_bits):
     kind = alt[0]
+    if kind == "flag-sign":
+        return "flag-bit-unknown"
     if kind == "flag-bit":
         b = alt[1].bit_length() - 1
         return "flag-bit-known:" + known_bits[b] if b in known_bits else "flag-bit-unknown"
@@ -99,6 +103,7 @@ def judge(c2):
 
 def alterations_for(c, rng, known_bits, n_masks, n_combo):
     alts = [("flag-bit", 1 << b) for b in range(31)]
+    alts.append(("flag-sign", 0))  # bit 31: the flag word as a negative C int (3.7's constructor accepts it)
     for _ in range(n_masks):
         k = rng.randint(2, 6)
         bits = set()
@@ -123,6 +128,40 @@ def alterations_for(c, rng, known_bits, n_masks, n_combo):
     for _ in range(n_combo):
         alts.append(("combo", 1 << rng.randint(0, 30), rng.choice(fields), rng.choice([-1, 1, 2])))
     return alts
+
+
+CONVERSION_FILES = ("_flags_data.py", "_args.py")
+
+
+def interrupted_history(pairs, res, prog, optimize):
+    """History dimension with faults: an encode/decode of base object B is interrupted at EVERY line inside the
+    flag / argument-count conversion code; afterwards the unaltered base objects A and B must still decode and
+    re-encode with their exact headers (the store's verdict may not depend on an interrupted earlier call)."""
+    import code_data
+
+    CD = code_data.CodeData
+    for (ia, a), (ib, b) in pairs:
+        if judge(a)[0] != "exact" or judge(b)[0] != "exact":
+            continue  # not a clean control: ordinary violations are reported by the caller
+        db = sched._outcome(lambda: CD.from_code(b))
+        if db[0] != "ok":
+            continue
+        for what, thunk in (("to_code", lambda: db[1].to_code()), ("from_code", lambda: CD.from_code(b))):
+            n, _ = sched.count_lines(thunk, only_files=CONVERSION_FILES)
+            for k in range(1, min(n, 60) + 1):
+                fired, where, out = sched.run_with_abort(thunk, k, "KeyboardInterrupt", only_files=CONVERSION_FILES)
+                if not fired:
+                    continue
+                res["interrupt_points"] = res.get("interrupt_points", 0) + 1
+                for idx, c in ((ib, b), (ia, a)):
+                    verdict, loc = judge(c)
+                    if verdict != "exact":
+                        fpr = "C11/H2-lossy-after-interrupted-call/%s/%s" % (what, loc if verdict == "lossy" else verdict.split(":")[0] + ":" + verdict.split(":")[-1])
+                        res["violations"].append({"property": "C11", "fingerprint": fpr, "invariant": "H2-lossy-after-interrupted-call", "interrupted": what, "k": k,
+                                                  "where": list(where) if where else None, "object_index": idx, "object_name": c.co_name, "prog": prog, "optimize": optimize,
+                                                  "history": True})
+                        return
+    return
 
 
 def run_store(seed, tree, tier, known, keep_sample=False):
@@ -165,6 +204,8 @@ def run_store(seed, tree, tier, known, keep_sample=False):
             res["classes"][cls] = res["classes"].get(cls, 0) + 1
             vk = verdict.split(":")[0]
             res["verdicts"][vk] = res["verdicts"].get(vk, 0) + 1
+            if alt[0] == "flag-sign":
+                res["bits_unknown_hit"]["31"] = res["bits_unknown_hit"].get("31", 0) + 1
             if alt[0] == "flag-bit" and cls == "flag-bit-unknown":
                 b = str(alt[1].bit_length() - 1)
                 res["bits_unknown_hit"][b] = res["bits_unknown_hit"].get(b, 0) + 1
@@ -178,6 +219,19 @@ def run_store(seed, tree, tier, known, keep_sample=False):
                 sample = {"program": prog.get("name"), "object": c.co_name, "base_header": [list(x) for x in header(c) if x[0] in ("co_flags", "co_argcount", "co_kwonlyargcount", "co_posonlyargcount")],
                           "alteration": list(alt), "class": cls, "verdict": verdict}
         res["distinct_keys"].append([base_digest, n_ok])
+    # interrupted-history pass on consecutive base objects (module/function pairs differ in flags)
+    small = [i for i in idxs if len(cos[i].co_code) <= 400 and sum(1 for k in cos[i].co_consts if hasattr(k, "co_code")) <= 2]
+    pairs = []
+    npairs = 1 if tier == "quick" else 3
+    for ib in small:
+        # partner with DIFFERENT flags: a stale entry of a flags memo is only visible across different words
+        ia = next((i for i in small if cos[i].co_flags != cos[ib].co_flags), None)
+        if ia is not None:
+            pairs.append(((ia, cos[ia]), (ib, cos[ib])))
+        if len(pairs) >= npairs:
+            break
+    if pairs and (tier != "quick" or rng.chance(0.3)):
+        interrupted_history(pairs, res, prog if "src" in prog else dict(prog), optimize)
     if sample:
         res["sample"] = sample
     return res
@@ -235,6 +289,9 @@ def flag_word_pass(seed, tier, spec):
         for b in unknown:
             mixed.append(1 << b)
             mixed.append((1 << b) | word_of(rng.below(total)))
+        for _ in range(6):
+            mixed.append(word_of(rng.below(total)) - (1 << 31))  # bit 31 set: a negative word
+        mixed.append(-(1 << 31))
         for _ in range(spec["mixed"]):
             w = word_of(rng.below(total))
             for _ in range(rng.randint(1, 3)):
